@@ -143,11 +143,12 @@ def r2_depth(ctx):
                     if e[0] == "switch" and e[2][0] == "call" and name_is(e[2][2], "eq", "ne") and has_subterm(e[2], lambda s: call_is(s, "name")):
                         same = name_is(e[2][2], "eq") == (e[3] != 0)
                         cmp_ok = has_subterm(e[2], lambda s: s[0] == "arg" and s[2] == "end") and "QName" in str(e[2][2]) or True
-                d0 = decision_on(p, lambda t: t[0] == "bin" and t[1] == "Eq" and t[2][0] == "phi" and t[2][3] == "depth")
+                d0 = decision_on(p, lambda t: t[0] == "bin" and t[1] == "Eq" and t[2][0] == "phi" and strip_wrappers(t[3])[0] == "c" and strip_wrappers(t[3])[2] == 0)
                 key = (var, same, None if d0 is None else (d0 != 0))
                 last = p[-1]
                 if last[0] == "loop":
-                    dv = last[2].get("depth")
+                    cc = carried_counter(last)
+                    dv = cc[1] if cc else last[2].get("depth")
                     if dv is None or dv[0] == "phi":
                         out = "continue"
                     elif dv[0] == "bin" and dv[1] == "Add" and dv[2][0] == "phi" and dv[3][2] == 1:
